@@ -447,6 +447,20 @@ def scRadd (d : DCfg) (b : Bytes) (k : Nat) : String := Id.run do
         | .ok (some _, _) => " ts=0"
         | .ok (none, _) => " ts=-1000"
         | .error e => s!" ts={failS e}")
+      -- a new table-metadata object made from the pieces the reader returned
+      match tmCreate tm0.table with
+      | .error e => out := out ++ s!" cp={stI e}"
+      | .ok t2 =>
+        let mut t := t2
+        let mut e : Status := .ok
+        for col in tm0.cols do
+          if e = .ok then
+            match tmAdd col t with
+            | .ok t' => t := t'
+            | .error x => e := x
+        out := out ++ s!" cp=0,{stI e}:{t.cols.length}"
+        let w2 := emitAll (writeTM d.cfg t)
+        out := out ++ s!" cpw={stI w2.1}:{hexq d w2.2}"
       -- K columns added to the table metadata
       let mut tm := tm0
       let mut sts : List String := []
